@@ -12,6 +12,8 @@ var libUsed = map[string]string{}
 // library functions that write nothing reachable from the verified code
 var libPure = map[string]bool{
 	"(*sync.Pool).Put": true,
+	"fmt.Fprintf": true, "fmt.Fprint": true, "fmt.Fprintln": true, "(io.Writer).Write": true,
+	"(*bytes.Buffer).Write": true, "(*bytes.Buffer).WriteString": true, "(*strings.Builder).WriteString": true, "(*bytes.Buffer).WriteByte": true,
 	"fmt.Errorf": true, "fmt.Sprintf": true, "fmt.Sprint": true, "fmt.Sprintln": true, "errors.New": true,
 	"github.com/tdewolff/parse/v2/strconv.ParseFloat": true, "github.com/tdewolff/parse/v2/strconv.ParseInt": true,
 	"github.com/tdewolff/parse/v2/strconv.ParseUint": true,
@@ -40,6 +42,13 @@ func (x *Exec) callLibrary(s *State, fn *types.Func, recv *Term, args []*Term, c
 	case "(*sync.Pool).Put":
 		libUsed[full] = "no effect on the verified state"
 		return nil, true
+	case "fmt.Fprintf", "fmt.Fprint", "fmt.Fprintln", "(io.Writer).Write", "(*bytes.Buffer).Write", "(*bytes.Buffer).WriteString", "(*strings.Builder).WriteString", "(*bytes.Buffer).WriteByte":
+		libUsed[full] = "returns (n, err) with n >= 0 bytes written; writes nothing reachable from the verified state"
+		v := x.havocResults(s, call)
+		if len(v) >= 1 && v[0].S == SInt {
+			s.assume(Cmp("<=", IntLit(0), v[0]))
+		}
+		return v, true
 	case "fmt.Errorf", "errors.New":
 		libUsed[full] = "returns a non-nil error"
 		e := x.freshVar("err", IfaceSort)
